@@ -667,10 +667,22 @@ func genHistory(rng *rand.Rand, pools hPools, nops int, emphasis string, instanc
 // beyond the tiny colliding pools of genHistory): batch sizes and loop bounds inside the stores (expiry in
 // batches, selection over many members, counters adjusted by amounts > 1) only show with such populations.
 func genBulk(rng *rand.Rand, pools hPools, instances int) []hOp {
-	sizes := []int{513, 700, 1025, 1300}
+	return genBulkP(rng, pools, instances, -1, -1, -1, -1)
+}
+
+// genBulkP: sizes and the share of members that re-announces can be fixed (-1: random).  keep 0 = nobody re-announces:
+// the whole role (far more than a thousand members) expires in ONE pass.
+func genBulkP(rng *rand.Rand, pools hPools, instances int, fns, fnl, fkeepS, fkeepL int) []hOp {
+	sizes := []int{513, 700, 1025, 1300, 2100}
 	ns, nl := sizes[rng.Intn(len(sizes))], sizes[rng.Intn(len(sizes))]
 	if rng.Intn(3) == 0 {
 		ns = 40 + rng.Intn(60)
+	}
+	if fns >= 0 {
+		ns = fns
+	}
+	if fnl >= 0 {
+		nl = fnl
 	}
 	v6 := rng.Intn(3) == 0
 	ih := pools.ihs[rng.Intn(len(pools.ihs))]
@@ -708,6 +720,12 @@ func genBulk(rng *rand.Rand, pools hPools, instances int) []hOp {
 	clock += int64(10 * time.Minute)
 	ops = append(ops, hOp{T: "clock", Ns: clock})
 	keepS, keepL := rng.Intn(3), rng.Intn(3) // 0: nobody re-announces
+	if fkeepS >= 0 {
+		keepS = fkeepS
+	}
+	if fkeepL >= 0 {
+		keepL = fkeepL
+	}
 	for k := 0; k < ns; k++ {
 		if keepS > 0 && k%(keepS+1) == 0 {
 			ops = append(ops, mk(k, true))
@@ -892,8 +910,8 @@ func histStream(o *Out, rng *rand.Rand, n int, emphasis string) {
 			runHistory(o, "gc-story-redis", cfg, genGcStory(rng, mkPools(rng, cfg.Shards), cfg.Instances, k))
 		}
 	}
-	// two large-swarm histories first (one per store), more in the thorough tier
-	for i := 0; i < 2+n/150; i++ {
+	// large-swarm histories: two fixed ones (below) in every tier, random sizes in the thorough tier
+	for i := 0; i < n/150; i++ { // (thorough tier: random sizes as well)
 		cfg := hStoreCfg{Kind: "mem", Shards: memShards[i%len(memShards)]}
 		inst := 1
 		if i%2 == 1 {
@@ -902,6 +920,9 @@ func histStream(o *Out, rng *rand.Rand, n int, emphasis string) {
 		}
 		runHistory(o, "bulk-"+cfg.Kind, cfg, genBulk(rng, mkPools(rng, cfg.Shards), inst))
 	}
+	// ... and always: a whole role of well over a thousand members expiring in one pass, on both stores
+	runHistory(o, "bulk-mem", hStoreCfg{Kind: "mem", Shards: 2}, genBulkP(rng, mkPools(rng, 2), 1, 1300, 600, 0, 1))
+	runHistory(o, "bulk-redis", hStoreCfg{Kind: "redis", Instances: 1}, genBulkP(rng, mkPools(rng, 0), 1, 1100, 60, 0, 1))
 	for i := 0; i < n; i++ {
 		var cfg hStoreCfg
 		if i%2 == 0 {
